@@ -9,8 +9,14 @@ ASSUME = [
     'the published schema is nbdime/merge_format.schema.json (+ diff_format.schema.json it refers to), regenerated into coq/Gen/NbSchemas.v on every run; conformance means jsonschema.Draft4Validator, mirrored by the Coq validator (compared on every decision list)',
     '"choosing side s for every decision" = set every action to s and read an absent s_diff as the empty diff (how the web merge tool builds its panes)',
     'the choose-local / choose-remote clause is evaluated for the mergetool strategy (conflicts left open), the apply-equals-merged, schema, plain-JSON and ordering clauses for every strategy, as the property quantifies',
+    'in addition the choose-local / choose-remote clause is evaluated where a strategy re-collects both sides\' diffs into one bundled decision per output (effective outputs strategy inline-outputs, remove, clear-all) on the triples made for it: one output with a conflicting and a separate one-sided change (the mechanism "strategy bundling re-collects local/remote diffs" of the property)',
     'merges that raise an exception are outside this property (C03) and are only counted',
 ]
+
+
+# outputs strategies (after defaulting to the merge strategy) that replace every decision touching one output by a single one
+BUNDLING_OUTPUT_STRATEGIES = ('inline', 'remove', 'clear-all')
+DEFAULT_CLI = {'merge_strategy': 'inline', 'input_strategy': None, 'output_strategy': None, 'ignore_transients': True}
 
 
 def eq(a, b): return pyspec.strict_eq(a, b)
@@ -63,8 +69,9 @@ def judge(ref, t, res):
     except Exception as e:
         if clear_on_list: out.append(('clear-decision-relevelled-onto-sequence', {'decision': clear_on_list[0], 'msg': str(e)[:200]}))
         else: out.append(('independent-apply-fails:' + type(e).__name__, {'msg': str(e)[:300]}))
-    # choose a side (mergetool)
-    if cfg.get('merge_strategy') == 'mergetool':
+    # choose a side (mergetool; and the tasks marked 'sides': one output carrying a conflicting and a one-sided change under a
+    # strategy that bundles the decisions of an output, build_tasks)
+    if cfg.get('merge_strategy') == 'mergetool' or t.get('sides'):
         for side in ('local', 'remote'):
             x = res.get('as_' + side, {})
             if 'err' in x: out.append(('choose-%s-raises:%s' % (side, x['err']), {'msg': x.get('msg')}))
@@ -116,6 +123,24 @@ def build_tasks(chk, tier, ref):
         elif ti % 2 == 0: cfgs += [r.choice(cli)]
         for c in cfgs:
             tasks.append({'op': 'merge', 'base': b, 'local': l, 'remote': rm, 'args': c, 'c09': True}); meta.append((name, c))
+    # one output (or cell) carrying BOTH a conflicting change and a separate non-conflicting one-sided change (c09_cases, family
+    # 3), under mergetool and under the strategies that replace all decisions of an output by one bundled decision (effective
+    # outputs strategy inline / remove / clear-all, one configuration of each per triple): there the bundled decision has to
+    # carry the one-sided edits as well, so the choose-a-side clause is judged for these tasks too ('sides'); generated last
+    bundling = {}
+    for c in cli: bundling.setdefault(c['output_strategy'] or c['merge_strategy'], []).append(c)
+    for ti, (name, b, l, rm) in enumerate(c09_cases.mixed_change_triples(r, tier)):
+        ks = [c04mod.declared_key(x) for x in (b, l, rm)]
+        if not (all(ks) and all(ref.is_valid(k, x) for k, x in zip(ks, (b, l, rm)))):
+            skipped += 1; continue
+        for c in [mt[0], mt[1]]:
+            tasks.append({'op': 'merge', 'base': b, 'local': l, 'remote': rm, 'args': c, 'c09': True}); meta.append((name, c))
+        for eff in BUNDLING_OUTPUT_STRATEGIES:
+            pool = bundling[eff]
+            cfgs = [pool[(ti * 7) % len(pool)]] if tier == 'quick' else [pool[(ti * 7 + 3 * j) % len(pool)] for j in range(2)] + [r.choice(pool)]
+            if eff == 'inline' and ti % 3 == 0: cfgs.append(DEFAULT_CLI)          # the command-line default
+            for c in cfgs:
+                tasks.append({'op': 'merge', 'base': b, 'local': l, 'remote': rm, 'args': c, 'c09': True, 'sides': True}); meta.append((name, c))
     return tasks, meta, skipped
 
 
@@ -129,6 +154,7 @@ def run(tier, seed):
     tasks, meta, skipped = build_tasks(chk, tier, ref)
     results = c04mod.run_tasks(tasks)
     hist = {}; nontrivial = set(); raised = {}; judged = 0; coq_cases = []; coq_expect = []
+    mixed_stat = {'triples': 0, 'conflict_and_one_sided_in_one_output': 0}
     for t, (name, cfg), res in zip(tasks, meta, results):
         kind = ('mergetool' if cfg['merge_strategy'] == 'mergetool' else 'cli') + ':' + name.split(':')[0].split('@')[0].rstrip('0123456789')
         hist[kind] = hist.get(kind, 0) + 1
@@ -136,12 +162,19 @@ def run(tier, seed):
             raised[res['err']] = raised.get(res['err'], 0) + 1; continue
         judged += 1
         decs = res['decisions']
+        if name.startswith('mixed:') and cfg['merge_strategy'] == 'mergetool':
+            # did the triple get what it was made for: decisions with and without a conflict inside one output
+            per = {}
+            for d in decs:
+                p = d.get('common_path') or []
+                if len(p) >= 4 and p[0] == 'cells' and p[2] == 'outputs': per.setdefault((p[1], p[3]), set()).add(bool(d.get('conflict')))
+            mixed_stat['triples'] += 1; mixed_stat['conflict_and_one_sided_in_one_output'] += any(len(v) == 2 for v in per.values())
         if len(decs) >= 2 or any(d.get('conflict') for d in decs):
             nontrivial.add(pyspec.canon([t['base'], t['local'], t['remote'], t['args']]))
         if len(coq_cases) < (500 if tier == 'quick' else 3000):
             coq_cases.append(('merge', decs)); coq_expect.append(ref.is_valid('merge', decs))
         for sig, detail in judge(ref, t, res):
-            case = {k: t[k] for k in ('op', 'base', 'local', 'remote', 'args', 'c09')}
+            case = {k: t[k] for k in ('op', 'base', 'local', 'remote', 'args', 'c09', 'sides') if k in t}
             chk.violation(sig, case, dict(detail, triple=name, config=c04_cases.cfg_name(cfg)))
     # every observed action must be one the translator found in the sources (Gen/Actions.v py_emitted)
     emitted = c09_model.py_emitted()
@@ -165,8 +198,8 @@ def run(tier, seed):
     vc = c04_valcorr.run(chk, core.REPO, 600 if tier == 'quick' else 4000, 100 if tier == 'quick' else 500)
     chk.cov.update({
         'evaluations': judged, 'distinct_nontrivial': len(nontrivial),
-        'rule': 'merge_notebooks on valid notebook triples (hand-made per conflict kind at every minor, fixture triples, gennb.gen_triple with forced conflicts, triples whose three minors are pairwise different, concurrent inserts at one position of each notebook sequence -- identical, extending, unrelated -- followed by a removal on no / one / both sides; deletion of a transient cell-metadata flag / a cell / an execute_result output on one side against transient-only edits of it on the other side -- every flag, either side deleting, several flags incl. crossed roles, unrelated one-sided edits next to it, equal / pairwise different / upgraded minors, non-transient controls) under mergetool (both transient settings) and sampled CLI configurations; every clause of the property judged on the returned decisions with nbdime\'s applier and an independent applier (pyspec.spec_patch, grouping by path); non-trivial = at least two decisions or a conflict, distinct by canonical JSON of (triple, configuration)',
-        'input_distribution': hist, 'merges_that_raised_(C03)': raised, 'invalid_input_triples_skipped': skipped,
+        'rule': 'merge_notebooks on valid notebook triples (hand-made per conflict kind at every minor, fixture triples, gennb.gen_triple with forced conflicts, triples whose three minors are pairwise different, concurrent inserts at one position of each notebook sequence -- identical, extending, unrelated -- followed by a removal on no / one / both sides; deletion of a transient cell-metadata flag / a cell / an execute_result output on one side against transient-only edits of it on the other side -- every flag, either side deleting, several flags incl. crossed roles, unrelated one-sided edits next to it, equal / pairwise different / upgraded minors, non-transient controls; one output (stream / display_data / execute_result / error) carrying both a conflicting change -- line of its text rewritten by both, rewritten vs deleted, output-metadata key, evalue, or a source line of its cell -- and a separate one-sided change by local / remote / each side -- another line rewritten, inserted or deleted, the other mime type, output metadata, the result\'s execution_count, ename, the cell\'s source or metadata, control: a sibling output --, at every position among 1-3 outputs, distance 1-5 lines, all minor mixes, additionally under one configuration per bundling outputs strategy (inline-outputs, remove, clear-all) and the CLI default with the choose-a-side clause judged there too) under mergetool (both transient settings) and sampled CLI configurations; every clause of the property judged on the returned decisions with nbdime\'s applier and an independent applier (pyspec.spec_patch, grouping by path); non-trivial = at least two decisions or a conflict, distinct by canonical JSON of (triple, configuration)',
+        'input_distribution': hist, 'mixed_change_family_(mergetool_runs)': mixed_stat, 'merges_that_raised_(C03)': raised, 'invalid_input_triples_skipped': skipped,
         'traces_validated_against_impl': t1 + vc.get('validator_cases', 0) + mc.get('sortkey_cases', 0),
         'validator_on_decision_lists': t1, 'validator_on_decisions_mismatches': mism,
         'validator_correspondence': vc, 'model_correspondence': mc, 'exhaustive': False,
